@@ -1321,6 +1321,9 @@ class Transport(threading.Thread, ClosingContextManager):
         try:
             if len(self.server_accepts) > 0:
                 chan = self.server_accepts.pop(0)
+            elif not self.active:
+                # nothing queued and nothing can arrive any more
+                chan = None
             else:
                 self.server_accept_cv.wait(timeout)
                 if len(self.server_accepts) > 0:
@@ -2310,11 +2313,12 @@ class Transport(threading.Thread, ClosingContextManager):
                     self.auth_handler.abort()
                 for event in self.channel_events.values():
                     event.set()
-                try:
-                    self.lock.acquire()
-                    self.server_accept_cv.notify()
-                finally:
-                    self.lock.release()
+            # wake anybody blocked in accept(), however the session ended
+            try:
+                self.lock.acquire()
+                self.server_accept_cv.notify_all()
+            finally:
+                self.lock.release()
             self.sock.close()
         except:
             # Don't raise spurious 'NoneType has no attribute X' errors when we
